@@ -116,8 +116,8 @@ def run(ctx):
             a = origin(f, pos["set_block"].args[2])
             R.ob(mentions(a, "generate_block"), "WIRE", pos["set_block"].where(), "WIRE|finalise|block-source", "block stored is not generate_block's result")
     # LastBlockInfo reset after the db closure
-    feng = [x for x in F.fns.values() if x.name == "engine::engine::BRC20ProgEngine::finalise_block"]
-    if feng:
+    feng = [ER.engine_methods(F).get("finalise_block")]
+    if feng[0] is not None:
         f = feng[0]
         wf = [c for c in f.calls() if (c.method or "") == "write_fn" and not f.is_cleanup(c.bb)]
         wu = [c for c in f.calls() if (c.method or "") == "write_fn_unchecked" and not f.is_cleanup(c.bb)]
